@@ -482,7 +482,7 @@ class PteraTransformer(NodeTransformer):
         if (
             isinstance(target, ast.Subscript)
             and isinstance(target.value, ast.Name)
-            and not isinstance(target.slice, (ast.Constant, ast.Slice))
+            and not isinstance(target.slice, ast.Constant)
             and not expression
             and self.should_instrument(target.value.id, ann)
         ):
@@ -500,7 +500,7 @@ class PteraTransformer(NodeTransformer):
                 for sym, val in [
                     (vsym, value_arg),
                     (osym, ast.Name(id=target.value.id, ctx=ast.Load())),
-                    (ksym, target.slice),
+                    (ksym, self._unslice(target.slice)),
                 ]
             ]
             value_arg = ast.Name(id=vsym, ctx=ast.Load())
@@ -580,6 +580,28 @@ class PteraTransformer(NodeTransformer):
                     col_offset=orig.col_offset,
                 ),
             ]
+
+    def _unslice(self, index):
+        """Write o[a:b] = v as o[slice(a, b, None)] = v.
+
+        The index can then be evaluated once, into a temporary.
+        """
+        if isinstance(index, ast.Slice):
+            return ast.Call(
+                func=self._get("slice"),
+                args=[
+                    part or ast.Constant(value=None)
+                    for part in (index.lower, index.upper, index.step)
+                ],
+                keywords=[],
+            )
+        elif isinstance(index, ast.Tuple):
+            return ast.Tuple(
+                elts=[self._unslice(elt) for elt in index.elts],
+                ctx=ast.Load(),
+            )
+        else:
+            return index
 
     def visit_body(self, stmts):
         new_body = []
@@ -1323,6 +1345,7 @@ def transform(fn, proceed, to_instrument=True, set_conformer=True):
         "resume": ("__ptera_resume", _resume),
         "yielding": ("__ptera_yielding", _yielding),
         "resumed": ("__ptera_resumed", _resumed),
+        "slice": ("__ptera_slice", slice),
         "get_tags": ("__ptera_get_tags", get_tags),
         "self": (fnsym, None),
         "frame": ("__ptera_frame", None),
